@@ -1459,6 +1459,8 @@ func (state *pexState) add(p pex.Peer) {
 		if len(state.pendingDel) == 0 {
 			state.pendingDel = nil
 		}
+		// the peer still knows about p
+		state.sent = append(state.sent, p)
 		return
 	}
 
